@@ -109,7 +109,9 @@ def _task(arg):
             n += 1
             judge_input(ws, s, "short", None, acc, (idx, 0, n))
         acc.add("short_strings", n)
-    ex = values.Explorer(ws, cfg["k"], "value", cfg["max_len"], cap=cfg["cap"])
+    # wire-first: the base encodings range over the full wire domain (values Python cannot represent, explicit defaults,
+    # unknown tags), not only over what kio itself would write
+    ex = values.Explorer(ws, cfg["k"], "wire", cfg["max_len"], cap=cfg["cap"])
     seen = set()
     shapes = set()
     payload_shapes = set()
@@ -121,6 +123,7 @@ def _task(arg):
         lay = refcodec.encode(ws, w, bridge.wire_default)
         enc = bytes(lay.buf)
         acc.add("base_encodings")
+        judge_input(ws, enc, "base", None, acc, (idx, 1 + cost, len(seen), 0))
         crit = lay.critical_offsets()
         offsets = None if (cost == 0 or cfg["all_offsets"]) else crit
         m = 0
